@@ -45,6 +45,7 @@ def parseAction (s : String) : Option Action :=
   | ["csl", n] => do pure (.chSlice (← n.toNat?))
   | ["TL"] => some .tlNext
   | ["CTL", c] => do pure (.chTlNext (← c.toNat?))
+  | ["ERR", k] => do pure (.failNext (← k.toNat?))
   | ["X", k, ids] => do pure (.extra (← k.toNat?) (← (ids.splitOn ",").mapM String.toNat?))
   | _ => none
 
